@@ -45,6 +45,20 @@ def find_rounding_helper(prog):
     raise AnalysisError("anchor vanished: integer rounding helper of the fraction path of Quantity.quantize")
 
 
+def rounding_summary(I, fi, args, kwargs, node):
+    """Engine A's view of the integer rounding helper (x, y, mode) -> integer nearest to x / y in the given mode."""
+    params = [p.arg for p in fi.node.args.args]
+    vals = dict(zip(params, args))
+    vals.update(kwargs)
+    x, y = vals.get(params[0]), vals.get(params[1])
+    mode = vals.get(params[2], NONE) if len(params) > 2 else NONE
+    if not (isinstance(x, Num) and isinstance(y, Num)):
+        I.unsupported(node, "rounding helper called with non-numbers")
+    ratio = I.models.simplify_numden(x.rf / y.rf)
+    I.st.effects.append(("roundint", x, y, mode, I.models.where(node)))
+    return Num(I.models.ufn("roundint", ratio), "int")
+
+
 def run(prog, tier) -> Result:
     res = Result("C13")
     res.explanation = (
@@ -70,7 +84,7 @@ def run(prog, tier) -> Result:
     for mode, how, qc, cmp2, out in decision_table(helper, modes, prog):
         cells += 1
         want = reference_add_one(mode, qc, cmp2)
-        ok = out[0] == "return" and isinstance(out[1], AQ) and out[1].c == want
+        ok = out[0] == "return" and isinstance(out[1], AQ) and out[1].s == 1 and out[1].c == want
         if not ok:
             bad_cells.setdefault((mode, how), []).append((qc, cmp2, out, want))
     res.evaluations += cells
@@ -93,7 +107,7 @@ def run(prog, tier) -> Result:
     # R13.2: exact quotient, unknown mode
     out = TableEval(helper, "ROUND_HALF_UP", None, ("1", 1), 0, rem_zero=True, prog=prog).run()
     res.ob("R13.2", helper.qualname, "exact quotient returned unchanged",
-           out[0] == "return" and isinstance(out[1], AQ) and out[1].c == 0, repr(out),
+           out[0] == "return" and isinstance(out[1], AQ) and out[1].s == 1 and out[1].c == 0, repr(out),
            sig="exact quotient altered")
     out = TableEval(helper, "ROUND_UNKNOWN_MODE", None, ("1", 1), 0, prog=prog).run()
     res.ob("R13.2", helper.qualname, "unknown mode rejected", out == ("raise", "ValueError"), repr(out),
@@ -120,6 +134,9 @@ def run(prog, tier) -> Result:
         for mode_v, mlabel in ((NONE, "default mode"), (EnumV("ROUNDING", "ROUND_HALF_UP"), "explicit mode")):
             def setup(c, fl=fl, mode_v=mode_v):
                 c.new_type("T", **FLAVORS[fl])
+                # the integer rounding helper is decided cell by cell by Engine C (R13.1/R13.2); here it is a summary:
+                # an integer that depends on the exact quotient of its two arguments and on the mode it is given
+                c.m.summaries = {helper.qualname: rounding_summary}
                 return [c.qty("self", c.unit("us", "T")), c.qty("quant", c.unit("uq", "T")), mode_v], {}
 
             def judge(o, mode_v=mode_v):
@@ -154,6 +171,17 @@ def run(prog, tier) -> Result:
                         if not same_mode:
                             return ("rounding mode not passed to the decimal path", repr(m))
                     return None if ok else ("decimal path quantizes with another quantum", f"{ex!r}; quantum {g!r}")
+                if fa[1] == "roundint":
+                    ok = ex.equals(RF.atom(fa) * g) and arg.equals(ratio)
+                    eff = [e for e in st.effects if e[0] == "roundint"]
+                    if ok and eff:
+                        m = eff[-1][3]
+                        same_mode = (isinstance(m, NoneV) and isinstance(mode_v, NoneV)) or \
+                            (isinstance(m, EnumV) and isinstance(mode_v, EnumV) and m.member == mode_v.member)
+                        if not same_mode:
+                            return ("rounding mode not passed to the fraction path", repr(m))
+                    return None if ok else ("fraction path: not the rounded exact quotient times the quantum",
+                                            f"{ex!r}; quantum {g!r}; ratio {ratio!r}")
                 if fa[1] == "floordiv":
                     m0 = RF.atom(fa)
                     ok = arg.equals(ratio) and (ex.equals(m0 * g) or ex.equals((m0 + RF.const(1)) * g))
